@@ -60,7 +60,7 @@ PropagateOld(n) ==
                 \* what children inherit for `delete` is what they are given when attached (_get_child_kwargs): the container
                 \* type's deleting default counts (mutation PropagateIgnoresDefaultDelete: the code before that fix, which let
                 \* an unrelated tag on an ancestor turn the items of a plain list into merge-mode items)
-                pd == IF TypeDefaultDelete(n) /\ ~Mut("PropagateIgnoresDefaultDelete") THEN "T" ELSE n.idel
+                pd == IF n.idel = "N" /\ TypeDefaultDelete(n) /\ ~Mut("PropagateIgnoresDefaultDelete") THEN "T" ELSE n.idel
                 f1 == n.del = "N"  /\ c.idel # pd
                 f2 == n.anew = "N" /\ c.ianew # n.ianew
                 f3 == n.safe = "N" /\ c.isafe # n.isafe /\ c.isafe # "F"
